@@ -239,7 +239,7 @@ impl Report {
         cov.insert("observed_sets".into(), Value::Object(sets));
         cov.insert("skips".into(), json!(g.skips));
         cov.insert(
-            "obligations".into(),
+            "coverage_obligations".into(),
             Value::Array(
                 g.obligations.iter().map(|(n, m, note)| json!({"name": n, "met": m, "note": note})).collect(),
             ),
